@@ -649,9 +649,25 @@ where
         let mut b = a.clone();
         b.lc = Some((128, 2, false));
         a.lc = None;
-        vec![a, b]
+        let mut v = vec![a.clone(), b];
+        // code rates whose inverse is not a power of two (the encoding domain is the smallest FFT domain that
+        // holds n_cols * rho_inv points)
+        for r in [3usize, 5, 6] {
+            let mut c = a.clone();
+            c.lc = Some((128, r, true));
+            v.push(c);
+        }
+        v
     } else {
-        vec![KeyCfg::ml(2), KeyCfg::ml(3), KeyCfg::ml(5)]
+        let mut v = vec![KeyCfg::ml(2), KeyCfg::ml(3), KeyCfg::ml(5)];
+        if S::LIGERO {
+            for (nv, r) in [(3usize, 3usize), (5, 3), (4, 5), (7, 6)] {
+                let mut c = KeyCfg::ml(nv);
+                c.lc = Some((128, r, true));
+                v.push(c);
+            }
+        }
+        v
     };
     for cfg in cfgs {
         let keys = match build_keys::<S>(&cfg, rec.seed) {
@@ -665,7 +681,7 @@ where
         }
         if S::FAM == Fam::Uni {
             let r = rho_stream::<Fr381>(rec.seed, 9, 70);
-            for d in [5usize, 8, 15, 16, 17, 31, 33, 63] {
+            for d in [5usize, 8, 9, 15, 16, 17, 19, 24, 31, 33, 40, 63] {
                 polys.push((format!("dense({})", d), S::poly_from(&r[..=d], nv)));
             }
         } else {
